@@ -86,8 +86,8 @@ func init() {
 	var cuts []string
 	fw.Register(&fw.Check{
 		ID:        "C06",
-		QuickS:    75,
-		ThoroughS: 900,
+		QuickS:    90,
+		ThoroughS: 1200,
 		Rule: "every string over the SQL byte / fragment / token-class alphabets up to the completed level and every fixture cut: one model trace per (input, mode) - scan steps with offsets, token fields, folded window, statistics, fingerprint, blacklist bit, verdict - " +
 			"is compared field by field with the implementation in all six modes, plus the public cascade; non-trivial = at least one mode has a non-empty fingerprint; distinct_outcomes = distinct vectors of per-mode fingerprints and verdicts",
 		Assumptions: []string{
@@ -109,6 +109,7 @@ func init() {
 				Run: func(w *fw.W) { w.Trie(alpha.S3, 1, w.Pick(3, 4)) }, Eval: evalC06},
 			{Name: "trie-S3core-deep", Space: "S3core^5 (quick) / ^6..7 (thorough): windows of 6-7 tokens (5-token special cases, look-ahead token)", Share: 4,
 				Run: func(w *fw.W) { w.Trie(alpha.S3core, w.Pick(5, 6), w.Pick(5, 7)) }, Eval: evalC06},
+			closurePhase(),
 			{Name: "corpus-cuts", Space: "every prefix, suffix and prefix+quote of every fixture x 6 modes", Share: 1,
 				Run: func(w *fw.W) { w.Each(len(cuts), func(i int) { w.Item(cuts[i], "") }) }, Eval: evalC06},
 		},
